@@ -315,6 +315,12 @@ int main(int argc, char** argv) {
         { Config c; c.nr_exp = 2; c.ntheta_exp = 3; expect_throw("too-few-levels-radial", c, true, false); }
         { Config c; c.nr_exp = 3; c.ntheta_exp = 2; expect_throw("too-few-levels-angular", c, true, false); }
         { Config c; c.nr_exp = 5; c.ntheta_exp = 5; c.maxLevels = 2; expect_throw("level-cap-2", c, false, false); }
+        for (int take = 0; take < 2; take++) {   // a cap below the multigrid minimum must be rejected by setup() (solve() is not attempted)
+            Config c; c.nr_exp = 5; c.ntheta_exp = 5; c.maxLevels = 1; c.take = take; c.extrap = 0;
+            bool thrown = false;
+            try { auto s = make_solver(c); apply_options(*s, c); s->setup(); } catch (const std::exception&) { thrown = true; }
+            std::printf("PROP option-level-cap-1 take=%d thrown=%d => %s\n", take, thrown ? 1 : 0, thrown ? "ok" : "FAIL maxLevels = 1 was not rejected by setup()");
+        }
         { Config c; c.nr_exp = 3; c.ntheta_exp = 3; c.pre = 0; c.post = 0; c.maxit = 2; expect_throw("zero-smoothing-steps", c, false, false); }
         { Config c; c.nr_exp = 3; c.ntheta_exp = 3; c.tol = false; c.maxit = 3; expect_throw("disabled-tolerances", c, false, false); }
         { Config c; c.nr_exp = 3; c.ntheta_exp = 3; c.threads = 32; expect_throw("more-threads-than-lines", c, false, false); }
